@@ -502,7 +502,7 @@ def build_catalogue(ctx):
         v = vec(rng, n, "posint")
         for j in range(2, min(n, 7)):
             v[j] = v[1] + (j - 1) * 2.0
-        return {"data": Arr(v)}
+        return {"data": Arr(v, nan_at=(0 if rng.random() < 0.4 else None))}
     S.append(Spec("qualitycontrol.islinear", lin, lambda a: qualitycontrol.islinear(a["data"], npoints=1),
                   site="qualitycontrol.islinear", margs=("data",)))
     S.append(Spec("signatures.eckhardt", lambda rng, n: {"flow": Arr(vec(rng, max(n, 30), "pos"))},
@@ -1014,7 +1014,9 @@ def run(ctx):
     ctx.tested_not_proved = [
         "functions that never reach a C kernel (pure numpy/pandas/scipy/matplotlib code: most of metrics, sutils, "
         "transform, plot helpers, Grid bookkeeping): explored by the before/after search only",
-        "repeatability of results (two consecutive calls, same seed): tested, not proved",
+        "repeatability of results (two consecutive calls, same seed): tested on the implementation; proved only in "
+        "the model, for the kernel wrappers, with kernels as deterministic functions of their parameters "
+        "(C18_second_call_same)",
         "value-preservation of Grid.dtype conversions performed on grid arguments (delineate_river, accumulate, slope)",
         "numpy/pandas view-or-copy behaviour itself (model of the idioms validated by correspondence on the installed versions)"]
     proved = cm.prove(ctx)
